@@ -176,8 +176,11 @@ def drv_spe(which):
 
 
 def drv_prod_grad(rng):
-  nq, n, dim = rng.randint(1, 4), rng.randint(1, 3), rng.randint(1, 3)
+  nq, n, dim = rng.choice([1, 2, 2, 3, 4]), rng.randint(1, 3), rng.randint(1, 3)
   poss = numpy.array([[rng.uniform(0, 1) for _ in range(n)] for _ in range(nq)])
+  if nq >= 2:   # hand-written IR: the self-check is the only tie, so it always includes the corners of [0, 1] (a factor exactly 0 or 1)
+    poss[rng.randrange(nq)][rng.randrange(n)] = 0.0
+    poss[rng.randrange(nq)][rng.randrange(n)] = rng.choice([0.0, 1.0])
   gposs = numpy.array([[[rng.uniform(-1, 1) for _ in range(dim)] for _ in range(n)] for _ in range(nq)])
   from libsigopt.compute.probabilistic_failures import FailureListProductComponents, ProductOfListOfProbabilisticFailures
 
